@@ -635,7 +635,9 @@ def header_gate(eng: Engine, ctx: Ctx, rid: str, model: ReaderModel | None = Non
     f = m.read
     ctx.touch(func=f.qualname, file=eng.repo.relpath(f.module))
     callers = [s for s in eng.res.callers_of(m.asm.qualname)]
-    ctx.check(len(callers) == 1 and callers[0].caller == f.qualname, rid, m.asm.qualname, "who may call the frame assembler", expected=f"one call site, in {f.qualname}",
+    # the single call site is in `read`, or in a private helper that only `read` calls and that is analysed as part of it (inlined)
+    in_read = len(callers) == 1 and (callers[0].caller == f.qualname or (eng.is_inlined_helper(callers[0].caller) and {c.caller for c in eng.res.callers_of(callers[0].caller)} == {f.qualname}))
+    ctx.check(in_read, rid, m.asm.qualname, "who may call the frame assembler", expected=f"one call site, in {f.qualname}",
               found=", ".join(f"{c.caller}:{getattr(c.node, 'lineno', 0)}" for c in callers) or "none", **eng.loc(f, f.node))
     if len(m.asm_calls) != 1:
         ctx.bad(rid, f.qualname, "frame assembler call", expected="exactly one call in the reader loop", found=f"{len(m.asm_calls)} call(s)", **eng.loc(f, f.node))
@@ -997,6 +999,9 @@ def read_returns(eng: Engine, ctx: Ctx, rid: str, model: ReaderModel | None = No
             direct.append(e)
         ctx.check(is_eof or is_frame, rid, f.qualname, norm(e.node), expected="`return (None, None)` in the EOFError handler, or the frame assembler's (raw, parsed)",
                   found=f"{show(e.term)[:60]}" + (f" in handler {norm(e.handler.type)}" if e.handler is not None and e.handler.type is not None else ""), **eng.loc(f, e.node))
+    rv0 = post[0].term if len(post) == 1 else None
+    if rv0 is not None and rv0[0] == "loopout" and rv0[1] == lid and not inloop:
+        return n + _read_returns_single(eng, ctx, rid, m, f, post[0], rv0[2], call, pair)
     ctx.check(len(eof) >= 1, rid, f.qualname, "end of data ends the iteration cleanly", expected="`except EOFError: return (None, None)` inside the loop", found=f"{len(eof)} such return(s)", **loc)
     ctx.check(len(post) + len(direct) >= 1, rid, f.qualname, "a frame can be returned", expected="a return of the assembler's result", found=f"{len(post)} post-loop, {len(direct)} direct", **loc)
     if not post:
@@ -1040,6 +1045,61 @@ def read_returns(eng: Engine, ctx: Ctx, rid: str, model: ReaderModel | None = No
             good = a == ("proj", call, 0) and b == ("proj", call, 1)
             ctx.check(good, rid, f.qualname, f"iteration end ({kind}) that can leave the loop" + (f" under {guard_text(g)[:60]}" if g else ""), expected="returned variables = (raw, parsed) of the frame assembler",
                       found=f"{names[0]} = {show(a)[:50]}, {names[1]} = {show(b)[:50]}", **loc)
+    ctx.instance("iteration ends examined", len(ends), 5)
+    return n
+
+
+def _read_returns_single(eng, ctx, rid, m, f, ret, R, call, pair) -> int:
+    """`while R is None: ...; return R`: the result is kept in one loop-carried variable R that starts as None; an iteration ends with R still None
+    (the loop goes on), R = the frame assembler's pair (a frame is returned) or R = (None, None) in the EOFError handler (end of data)."""
+    se, lid, info = m.se, m.lid, m.loop
+    loc = eng.loc(f, ret.node)
+    test = info.get("test")
+    n = 0
+    okt = test is not None and test[0] == "cmp" and test[1] == "is" and test[2] == ("loop", lid, R) and test[3] == ("const", None)
+    ctx.check(okt, rid, f.qualname, "loop condition", expected=f"while {R} is None (the loop ends exactly when a result is there)", found=show(test) if test is not None else "?", **loc)
+    if not okt:
+        return n
+    init = info["pre"].get(R)
+    ctx.check(init == ("const", None), rid, f.qualname, f"initial {R}", expected="None (the loop body runs before anything is returned)", found=show(init) if init else "unbound", **loc)
+    brk = [k for k, _ in info.get("ends", []) if k == "break"]
+    ctx.check(not brk, rid, f.qualname, "loop exits", expected="only through the loop condition", found=f"{len(brk)} break(s)", **loc)
+    neof = nframe = 0
+    ends = iteration_ends(info)
+    for kind, st in ends:
+        for g, (v,) in _joint_leaves([st.env.get(R, ("loop", lid, R))]):
+            n += 1
+            from ..symeval import neg_lit as _neg
+
+            have0 = set(st.guards) | set(g)
+            asm_g = m.asm_calls[0].guards
+            on_asm_path = (set(asm_g) <= have0 or (g and not any(_neg(l) in have0 or (l[0], not l[1]) in have0 for l in asm_g) and all(any(c == l[0] for c, _ in g) or l in st.guards for l in asm_g if l not in st.guards))) \
+                and m.asm_calls[0].seq < st.seq and not any(c[0] == "caught" for c, _ in st.guards)
+            if v == ("loop", lid, R) or v == ("const", None):
+                # nothing to return yet: the loop goes round again - wrong if this iteration has just assembled a frame (it would be discarded)
+                ctx.check(not on_asm_path, rid, f.qualname, f"iteration end ({kind}) after a frame was assembled" + (f" under {guard_text(g)[:60]}" if g else ""), expected="the loop is left with the assembled pair",
+                          found=f"{R} = {show(v)[:40]}: the loop continues and the frame is discarded", **loc)
+                continue
+            caught_eof = any(c[0] == "caught" and "EOFError" in c[3] and pol for c, pol in st.guards)
+            if v == ("const", (None, None)) or (v[0] == "tuple" and v[1] == (("const", None), ("const", None))):
+                neof += 1
+                ctx.check(caught_eof, rid, f.qualname, f"iteration end ({kind}) with the end-of-data result", expected="(None, None) only in the EOFError handler", found=guard_text(st.guards)[:100], **loc)
+                continue
+            from ..symeval import neg_lit
+
+            have = set(st.guards) | set(g)
+            # the path that reaches this end with this value is the one on which the assembler was called (no literal of its guard is contradicted)
+            good = v in (pair, call) and not any(neg_lit(l) in have or (l[0], not l[1]) in have for l in m.asm_calls[0].guards)
+            nframe += 1 if good else 0
+            ctx.check(good, rid, f.qualname, f"iteration end ({kind}) that leaves the loop" + (f" under {guard_text(g)[:60]}" if g else ""), expected="result = (raw, parsed) of the frame assembler, assembled in this iteration",
+                      found=f"{R} = {show(v)[:70]}", **loc)
+    # an iteration that assembled a frame must leave the loop with it
+    for kind, st in ends:
+        if set(m.asm_calls[0].guards) <= set(st.guards) and m.asm_calls[0].seq < st.seq and not any(c[0] == "caught" for c, _ in st.guards):
+            v = st.env.get(R, ("loop", lid, R))
+            ctx.check(v in (pair, call), rid, f.qualname, f"iteration end ({kind}) after a frame was assembled", expected="the loop is left with the assembled pair", found=f"{R} = {show(v)[:60]}", **loc)
+    ctx.check(neof >= 1, rid, f.qualname, "end of data ends the iteration cleanly", expected=f"`except EOFError: {R} = (None, None)` (or a return of it) inside the loop", found=f"{neof} such end(s)", **loc)
+    ctx.check(nframe >= 1, rid, f.qualname, "a frame can be returned", expected=f"some iteration end leaves the assembler's (raw, parsed) in {R}", found=f"{nframe} such end(s): every assembled frame is discarded" if not nframe else f"{nframe}", **loc)
     ctx.instance("iteration ends examined", len(ends), 5)
     return n
 
@@ -1230,7 +1290,7 @@ def sync_set(eng: Engine, ctx: Ctx, rid: str, model: ReaderModel):
         ctx.bad(rid, f.qualname, "first read", expected="a 1-byte read at the top of the loop", found="none", **eng.loc(f, f.node))
         return
     r1 = model.reads[0]
-    ctx.check(r1.term[3][0] == ("const", 1) and r1.loops == (model.lid,) and not [c for c in r1.guards if c[0] != ("loop", model.lid, "parsing")], rid, f.qualname, "first read of every iteration",
+    ctx.check(r1.term[3][0] == ("const", 1) and r1.loops == (model.lid,) and not [c for c in r1.guards if c[0] != ("loop", model.lid, "parsing") and c[0] != model.loop.get("test")], rid, f.qualname, "first read of every iteration",
               expected="unconditional 1-byte read", found=show(r1.term)[:40] + " under " + guard_text(r1.guards)[:60], **eng.loc(f, r1.node))
     found_sets = []
     for kind, st in iteration_ends(model.loop):
